@@ -10,7 +10,14 @@
 (*   exe   : what sits under the bundle name in the executable's directory  *)
 (*   lib   : what sits under the bundle name in the libexec directory       *)
 (* A location is absent, a non-file (directory), or a bundle = a sequence   *)
-(* of archive entries [n |-> platform name, b |-> content id, z |-> size].  *)
+(* of archive entries [n |-> platform name, b |-> content id, z |-> size];  *)
+(* or something that is there but cannot be used: "dangling" (a symbolic    *)
+(* link to nothing: opening it says "does not exist", so the search goes on *)
+(* exactly as for absent), "loop" (a self-referential symbolic link: ELOOP),*)
+(* "noperm" (a file the user may not read), "corrupt" (opens, but is not a  *)
+(* gzip/tar stream).  Everything but absent/dangling HOLDS the location:    *)
+(* the lookup uses it or fails naming it - it never falls through to a      *)
+(* later location.                                                          *)
 (* q is the requested platform name (goos "_" goarch).                      *)
 (*                                                                         *)
 (* This module holds the data vocabulary and the property operators; they   *)
@@ -22,6 +29,13 @@ EXTENDS Naturals, Sequences, FiniteSets
 Absent == [k |-> "absent", e |-> <<>>]
 NotFile == [k |-> "dir", e |-> <<>>]
 Arch(es) == [k |-> "bundle", e |-> es]
+Dangling == [k |-> "dangling", e |-> <<>>]
+Loop == [k |-> "loop", e |-> <<>>]
+NoPerm == [k |-> "noperm", e |-> <<>>]
+Corrupt == [k |-> "corrupt", e |-> <<>>]
+Kinds == {"absent", "dangling", "dir", "loop", "noperm", "corrupt", "bundle"}
+\* os.Open reports "does not exist": the search loop continues
+Missing(loc) == loc.k \in {"absent", "dangling"}
 
 SearchPaths(inbin) == IF inbin THEN <<"exe", "lib">> ELSE <<"exe">>
 LocAt(in, name) == IF name = "exe" THEN in.exe ELSE in.lib
@@ -30,7 +44,7 @@ LocAt(in, name) == IF name = "exe" THEN in.exe ELSE in.lib
 RECURSIVE FirstFrom(_, _, _)
 FirstFrom(in, ps, i) ==
   IF i > Len(ps) THEN 0
-  ELSE IF LocAt(in, ps[i]).k # "absent" THEN i ELSE FirstFrom(in, ps, i + 1)
+  ELSE IF ~Missing(LocAt(in, ps[i])) THEN i ELSE FirstFrom(in, ps, i + 1)
 FirstHolder(in) == FirstFrom(in, SearchPaths(in.inbin), 1)
 Chosen(in) == LET h == FirstHolder(in) IN
               IF h = 0 THEN Absent ELSE LocAt(in, SearchPaths(in.inbin)[h])
@@ -51,6 +65,10 @@ C46_SearchOrder(in, out) ==
   /\ (out.ok => c.k = "bundle" /\ \E j \in DOMAIN c.e : c.e[j].b = out.b)
   /\ (c.k = "bundle" /\ Named(c.e, in.q) # {} => out.ok)
   /\ (c.k = "absent" => ~out.ok)
+\* whatever holds the first location wins: bytes of a later location are never returned past it
+C46_FirstHolderWins(in, out) ==
+  LET ps == SearchPaths(in.inbin)  h == FirstHolder(in) IN
+  (out.ok /\ h # 0) => \A i \in (h + 1)..Len(ps) : \A j \in DOMAIN LocAt(in, ps[i]).e : LocAt(in, ps[i]).e[j].b # out.b
 \* the extracted agent is byte for byte the archive entry for the platform
 C46_ExactBytes(in, out) ==
   LET c == Chosen(in) IN
@@ -66,6 +84,8 @@ Expected(in) ==
   LET c == Chosen(in) IN
   IF c.k = "absent" THEN ErrOut("locate")
   ELSE IF c.k = "dir" THEN ErrOut("notfile")
+  ELSE IF c.k \in {"loop", "noperm"} THEN ErrOut("open")
+  ELSE IF c.k = "corrupt" THEN ErrOut("gzip")
   ELSE IF Named(c.e, in.q) = {} THEN ErrOut("unsupported")
   ELSE LET j == CHOOSE x \in Named(c.e, in.q) : \A y \in Named(c.e, in.q) : x <= y IN
        [ok |-> TRUE, err |-> "", b |-> c.e[j].b, z |-> c.e[j].z, exists |-> TRUE]
